@@ -6,8 +6,8 @@
 (* zeros counts consecutive RPM polls that read 0 since the request last changed.               *)
 EXTENDS Integers, Sequences, Json, TLC, IOUtils
 
-VARIABLES l, req, zeros, status, cfgf, raised
-vars == <<l, req, zeros, status, cfgf, raised>>
+VARIABLES l, req, zeros, status, cfgf, raised, lastPoll, looping
+vars == <<l, req, zeros, status, cfgf, raised, lastPoll, looping>>
 
 Trace == ndJsonDeserialize(IOEnv.VERIF_TRACE)
 N == Len(Trace)
@@ -21,6 +21,8 @@ StateOf(e) ==
   /\ zeros' = [f \in FanIds(e.fans) |-> 0]
   /\ status' = [f \in FanIds(e.fans) |-> "run"]
   /\ raised' = [f \in FanIds(e.fans) |-> 0]
+  /\ lastPoll' = [f \in FanIds(e.fans) |-> -1]
+  /\ looping' = [f \in FanIds(e.fans) |-> FALSE]
 
 Init == /\ Trace[1].ev = "Begin" /\ l = 2
         /\ cfgf = [f \in FanIds(Trace[1].fans) |-> FanOf(Trace[1].fans, f)]
@@ -28,19 +30,26 @@ Init == /\ Trace[1].ev = "Begin" /\ l = 2
         /\ zeros = [f \in FanIds(Trace[1].fans) |-> 0]
         /\ status = [f \in FanIds(Trace[1].fans) |-> "run"]
         /\ raised = [f \in FanIds(Trace[1].fans) |-> 0]
+        /\ lastPoll = [f \in FanIds(Trace[1].fans) |-> -1]
+        /\ looping = [f \in FanIds(Trace[1].fans) |-> FALSE]
 
 Step(e) ==
   CASE e.ev = "Begin" -> StateOf(e)
     [] e.ev = "RpmEnd" /\ e.fan \in DOMAIN req ->
          /\ zeros' = [zeros EXCEPT ![e.fan] = IF e.rpm = 0 THEN @ + 1 ELSE 0]
-         /\ UNCHANGED <<req, status, cfgf, raised>>
+         /\ lastPoll' = [lastPoll EXCEPT ![e.fan] = e.vt]
+         /\ UNCHANGED <<req, status, cfgf, raised, looping>>
     [] e.ev = "CycleEnd" /\ e.fan \in DOMAIN req ->
          /\ req' = [req EXCEPT ![e.fan] = IF e.a[2] = 1 THEN @ ELSE e.a[1]]
          /\ status' = [status EXCEPT ![e.fan] = IF e.a[2] = 1 THEN "error" ELSE @]
          /\ zeros' = [zeros EXCEPT ![e.fan] = IF e.a[2] = 1 \/ e.a[1] # req[e.fan] THEN 0 ELSE @]
          /\ raised' = [raised EXCEPT ![e.fan] = IF e.a[2] = 0 /\ req[e.fan] # Nil /\ e.a[1] = req[e.fan] + 1 THEN @ + 1 ELSE @]
-         /\ UNCHANGED cfgf
-    [] OTHER -> UNCHANGED <<req, zeros, status, cfgf, raised>>
+         /\ UNCHANGED <<cfgf, lastPoll, looping>>
+    [] e.ev = "LoopStarted" /\ e.fan \in DOMAIN req ->
+         /\ looping' = [looping EXCEPT ![e.fan] = TRUE]
+         /\ lastPoll' = [lastPoll EXCEPT ![e.fan] = IF @ < 0 THEN e.vt ELSE @]
+         /\ UNCHANGED <<req, zeros, status, cfgf, raised>>
+    [] OTHER -> UNCHANGED <<req, zeros, status, cfgf, raised, lastPoll, looping>>
 
 Next == l <= N /\ l' = l + 1 /\ Step(Trace[l])
 Spec == Init /\ [][Next]_vars
@@ -60,6 +69,14 @@ C10_ErrorOnlyAtMaxRun ==
 \* requests of a never-stop fan never go below its minimum
 C02_NeverBelowMinRun ==
   \A f \in DOMAIN req : cfgf[f].neverStop /\ req[f] # Nil => req[f] >= cfgf[f].min /\ req[f] <= cfgf[f].max
+
+\* the RPM monitor of a fan with an RPM sensor is alive while the fan is regulated: at every control
+\* cycle the latest RPM poll is at most three polling periods old (a monitor that was never started,
+\* or that gave up, leaves a stalled fan unnoticed for ever)
+C10_MonitorAlive ==
+  [][\A f \in DOMAIN req :
+       (l <= N /\ Trace[l].ev = "CycleEnd" /\ Trace[l].fan = f /\ cfgf[f].hasRpm /\ looping[f] /\ status[f] = "run")
+       => Trace[l].vt - lastPoll[f] <= 3 * cfgf[f].rpmPollMs + 1000]_vars
 
 Report == l = N + 1 => PrintT(<<"TRACE-DONE", N, "DRIFT", <<>>>>)
 TraceAccepted == TLCGet("stats").diameter = N
